@@ -10,7 +10,8 @@
                  (RFC 2965 rules: the domain is located with rfind, a leading dot is required for sub-domains)
      IsPrefix  = flow.request.path.startswith(path)                                                        *)
 EXTENDS Mon_StickyCookie, TLC
-CONSTANTS SetOps,     \* sequence of [host, port, cookies |-> <<[name, hasdom, dom, haspath, path, expired]>>]
+CONSTANTS SetOps,     \* sequence of [host, hostid, port, cookies |-> <<[name, hasdom, dom, domid, haspath, path, expired]>>]
+                      \* (hostid / domid: the same strings as atoms; the model's tables are lower case throughout)
           ReqOps,     \* sequence of [host, port, path, get |-> BOOLEAN]
           Filters,    \* subset of {"all", "get"}
           MaxOps,     \* bound on the history length
@@ -79,6 +80,7 @@ SortedSeq(S) == SetToSortSeq(S, <)
 SetEvent(op, i, c) ==
   LET ck == op.cookies[i]
   IN [k |-> "set", c |-> c + i, name |-> ck.name, host |-> op.host, port |-> op.port,
+      hostid |-> op.hostid, domid |-> ck.domid,
       hasdom |-> ck.hasdom, dom |-> ck.dom, haspath |-> ck.haspath, path |-> ck.path, expired |-> ck.expired]
 
 Response(s) ==
